@@ -83,7 +83,16 @@ def collect_sites(ctx):
                 nm = cname(t) or dname(t)
                 last = nm.split("::")[-1]
                 if last in PANIC_LAST and not nm.startswith(("tracing", "core::fmt", "std::fmt")) and not any(nm.endswith(x) for x in NOT_PANICKY):
-                    out.append((k, "call", "::".join(nm.split("::")[-2:]), tag, bl.idx, b))
+                    detail = "::".join(nm.split("::")[-2:])
+                    fnk = k
+                    if last in ("expect", "expect_err") and len(t.args) > 1:
+                        msg = ctx.an(b).operand_expr(t.args[1], (bl.idx, "term"))
+                        msg = flow.strip(msg)
+                        if msg[0] == "const" and isinstance(msg[2], str):
+                            # an expect() is identified by its message, wherever it lives (helper extraction keeps the triage)
+                            detail += "(%s)" % msg[2]
+                            fnk = k.split("::")[0] + "::*"
+                    out.append((fnk, "call", detail, tag, bl.idx, b))
     return out
 
 
@@ -298,7 +307,7 @@ def guard_discharges(ctx):
         out[(k, "assert", "BoundsCheck")] = (any(l["s"] == "[u8; 1]" for l in b.locals), "index 0 of a [u8; 1] buffer")
     # receive_packet: expect / Sub after the frame guard (C04/frame-guard proves dominance)
     rk = "passage_protocol::connection::{impl#0}::receive_packet::{closure#0}::{closure#0}"
-    out[(rk, "call", "Result::expect")] = ("frame-guard", "u64::try_from(length) after `length >= 1` (C04/frame-guard/dominates)")
+    out[("passage_protocol::*", "call", "Result::expect(length is always positive)")] = ("frame-guard", "u64::try_from(length) after `length >= 1` (C04/frame-guard/dominates)")
     # the only subtraction allowed to rely on the frame guard is `length − 1` (minuend = the frame length, subtrahend = constant 1)
     rb = ctx.prog.lib_bodies.get(rk)
     sub_ok = "frame-guard"
@@ -351,7 +360,7 @@ def panic_sites(ctx):
     used = set()
     for (fn, kind, detail), where in sorted(counts.items()):
         key = "%s|%s|%s" % (fn, kind, detail)
-        short_key = "C04/panic-sites/" + key.split("::", 1)[1].replace("::{closure#0}", "")
+        short_key = "C04/panic-sites/" + key.split("::", 1)[1].replace("::{closure#0}", "").replace("*|", "")
         if (fn, kind, detail) in guards:
             ok, why = guards[(fn, kind, detail)]
             if ok == "frame-guard":
@@ -359,10 +368,9 @@ def panic_sites(ctx):
             ctx.check(bool(ok), R, short_key, where[0], reason="guard rule failed for %s at %s: %s" % (key, where, why), detail="guarded: " + why)
             continue
         ent = entries.get(key)
-        if ent is None and kind == "call" and detail in ("Option::expect", "Option::unwrap", "Result::unwrap", "Result::expect"):
+        if ent is None and kind == "call" and detail.split("(")[0] in ("Option::expect", "Option::unwrap", "Result::unwrap", "Result::expect"):
             # generic discharge: the payload is taken on the edge of a dominating is_some()/is_ok()/match test of the same value
-            b0 = ctx.prog.lib_bodies[fn]
-            if all(_payload_guarded(ctx, b0, bb0) for bb0 in [x[4] for x in sites if x[0] == fn and x[1] == kind and x[2] == detail]):
+            if all(_payload_guarded(ctx, x[5], x[4]) for x in sites if x[0] == fn and x[1] == kind and x[2] == detail):
                 ctx.ok(R, short_key, where[0], "guarded: payload taken after a dominating Some/Ok test of the same value")
                 continue
         if ent is None:
